@@ -209,6 +209,13 @@ def corpus():
         P.append((f"{nm}_dup_memo", g("os", "getenv") + [op("DUP"), op("PUT", 3), op("POP"), u("HOME"), op("TUPLE1"), op("REDUCE"), op("GET", 3), op("TUPLE2"), op("STOP")]))
     P.append(("dotted_collision_a", [op("PROTO", 4)] + SG("os", "path.join") + SG("os.path", "join") + [op("TUPLE2"), op("STOP")]))
     P.append(("dotted_collision_b", [op("PROTO", 4)] + SG("pkg.sub", "run") + SG("pkg", "sub.run") + [op("TUPLE2"), op("STOP")]))
+    # two globals with the same name from different modules, each called: the second import must not be taken for the first
+    P.append(("same_name_two_modules", G("verifmod_a", "Point") + [one, op("TUPLE1"), op("REDUCE")] + G("verifmod_b", "Point") + [one, op("TUPLE1"), op("REDUCE"), op("TUPLE2"), op("STOP")]))
+    P.append(("same_name_two_modules_sg", [op("PROTO", 4)] + SG("verifmod_a", "Point") + [op("EMPTY_TUPLE"), op("REDUCE")] + SG("verifmod_b", "Point") + [op("EMPTY_TUPLE"), op("REDUCE"), op("TUPLE2"), op("STOP")]))
+    # SETITEMS / APPENDS / ADDITEMS with an empty batch are no-ops on their target, whatever the target is
+    P.append(("empty_setitems_on_call_result", G("collections", "OrderedDict") + [op("EMPTY_TUPLE"), op("REDUCE"), op("MARK"), op("SETITEMS"), op("STOP")]))
+    P.append(("empty_setitems_then_values_below", [one] + G("collections", "OrderedDict") + [op("EMPTY_TUPLE"), op("REDUCE"), op("MARK"), op("SETITEMS"), op("TUPLE2"), op("STOP")]))
+    P.append(("empty_appends_on_list", [op("EMPTY_LIST"), op("MARK"), op("APPENDS"), op("STOP")]))
     # MEMOIZE stores at len(memo), whatever keys explicit PUTs used before: sparse keys make the two notions of "next key" differ
     P.append(("memoize_overwrites_sparse_put", [op("PROTO", 4), u("first"), op("BINPUT", 1), u("second"), op("MEMOIZE"), op("BINGET", 1), op("TUPLE3"), op("STOP")]))
     P.append(("memoize_after_put5", [op("PROTO", 4), op("BININT1", 10), op("BINPUT", 5), op("BININT1", 20), op("MEMOIZE"), op("BINGET", 1), op("BINGET", 5), op("TUPLE"), op("STOP")][0:1]
